@@ -79,7 +79,7 @@ KNOWN_DEFECT_deleted_entry_reads_marker = False  # recorded in known_findings.js
 #                           StructuredGrid.backUp keeps ONE backup (self._backup = ...), the inner scope overwrites the
 #                           outer scope's backup (parameters and caches keep a stack; the grid does not).  Same for a
 #                           Cartesian grid (widths and offset) and for the axial mesh of an assembly.
-KNOWN_DEFECT_nested_grid_backup = True   # candidate genuine defect, reported; obligation skipped on the failing histories
+KNOWN_DEFECT_nested_grid_backup = False  # repaired in /repo (fix: 73844b2)
 
 
 # ---------------------------------------------------------------------------
@@ -328,6 +328,7 @@ class CladNdens(Slot):
 class DuctTemp(Slot):
     """component temperature through setTemperature (which also rescales the number densities)"""
     name, level = "duct.temperatureInC", "duct"
+    carrier = False   # the canary's rare value (123) lies outside the temperature window
 
     def draw(self, ctx, tag):
         return ctx.real("T" + tag, 300.0, 700.0)
@@ -661,7 +662,7 @@ SINGLE_THOROUGH = [
     # applies to the duct as well): > 50 min.  Split: concrete temperatures with the keepable dict / symbolic
     # temperature without it
     ("fuel.od", "clad.numberDensities", "duct.temperatureInC (2 values)", "b.power"),
-    ("fuel.od", "duct.temperatureInC", "b.power", "a.chargeTime"),
+    ("b.power", "fuel.od", "duct.temperatureInC", "a.chargeTime"),
     ("b.cartesian grid (centred offset)", "b1.cartesian grid (half-cell offset)", "b.cached", "a.chargeTime"),
     ("fuel.buRate (unset at entry)", "clad.zrFrac (unset at entry)", "a.cached (empty at entry)", "b.cached (empty at entry)"),
 ]
